@@ -7,13 +7,18 @@
     `cedarType(nil)` that `typeOfExtensionCall` returns WITHOUT an error for an unknown function
     applied to zero arguments.
   * record attribute maps are association lists (first match wins; built with `attrInsert`, so keys
-    are unique as in a Go map); entity LUBs are lists of entity type names (order is irrelevant for
-    everything the fragment does with them: membership, disjointness).
+    are unique as in a Go map); entity LUBs are SORTED duplicate-free lists of entity type names, as in Go
+    (`unionTys`).
+  * `EntityDecl` / `TEnv.entityDecls` / `TEnv.actionParents`: what the checker reads of `schema.Entities` (attribute
+    record type, tag type, `ParentTypes`) and of the action hierarchy; `lookupEntityAttr`, `entityHasTags`,
+    `entityTagType`, `isEntityDescendant` / `anyEntityDescendantOf` (depth-first search with a visited set),
+    `isActionDescendant` / `isActionInSet`, `exprToActionEUID(s)` mirror the Go functions of the same names.
   * `lub` = `leastUpperBound` / `lubRecord` / `unionLUB`, with the strict/permissive distinction.
     With `dom = true` (the domain of the soundness theorem) the permissive branch that silently
     DROPS an attribute whose types are incompatible fails instead (see `C15_lub_drop_counterexample`).
 -/
 import CedarGo.Model.Eval
+import CedarGo.Model.Schema.Resolve
 namespace CedarGo.Validate
 open CedarGo
 
@@ -47,8 +52,14 @@ def Ty.isNever : Ty → Bool | .never => true | _ => false
 def isBoolTy : Ty → Bool | .bool | .tt | .ff => true | _ => false
 def isSetTy : Ty → Bool | .set _ => true | _ => false
 
-/-- `unionLUB` (sorted/compacted in Go; only membership is ever observed) -/
-def unionTys (a b : List String) : List String := a ++ b.filter (fun t => !a.contains t)
+/-- insertion into a sorted duplicate-free list of entity type names -/
+def insertTy (t : String) : List String → List String
+  | [] => [t]
+  | x :: xs => if t < x then t :: x :: xs else if t == x then x :: xs else x :: insertTy t xs
+
+/-- `unionLUB`: `append`, `slices.Sort`, `slices.Compact` — the sorted duplicate-free union (the ORDER is observable:
+    `lookupEntityAttr` / `entityTagType` fold the least upper bound over the elements in this order) -/
+def unionTys (a b : List String) : List String := (a ++ b).foldr insertTy []
 
 /-- `entityLUB.isDisjoint` -/
 def disjointTys (a b : List String) : Bool := a.all (fun t => !b.contains t)
@@ -106,13 +117,16 @@ end
 
 /-! ## Capabilities (`capability.go`): a set of (access path, attribute) pairs.
    A path (`capPath`: a variable name, or `capAccess{base, attr}` on another path, compared structurally by Go's `==`) is
-   the list `[variable, attr₁, …, attrₙ]`.  Tag capabilities (`tag: true`, from `hasTag`) are a separate name space and do
-   not occur in the fragment. -/
+   the list `[variable, attr₁, …, attrₙ]`.  Tag capabilities (`tag: true`, from `hasTag`) are a separate name space:
+   the third component. -/
 
-abbrev Caps := List (List String × String)
+abbrev Caps := List (List String × String × Bool)   -- (path, attribute or tag key, `tag`)
 
-def Caps.has (cs : Caps) (p : List String) (a : String) : Bool := cs.contains (p, a)
-def Caps.add (cs : Caps) (p : List String) (a : String) : Caps := (p, a) :: cs
+def Caps.has (cs : Caps) (p : List String) (a : String) : Bool := cs.contains (p, a, false)
+def Caps.add (cs : Caps) (p : List String) (a : String) : Caps := (p, a, false) :: cs
+/-- tag capabilities (`capability{tag: true}`, from `hasTag`): a separate name space -/
+def Caps.hasTag (cs : Caps) (p : List String) (k : String) : Bool := cs.contains (p, k, true)
+def Caps.addTag (cs : Caps) (p : List String) (k : String) : Caps := (p, k, true) :: cs
 def Caps.merge (a b : Caps) : Caps := a ++ b
 def Caps.intersect (a b : Caps) : Caps := a.filter (fun c => b.contains c)
 
@@ -139,17 +153,44 @@ def exprVarName : Expr → List Char
     if p.isEmpty then [] else p ++ '.' :: a.toList
   | _ => []
 
-/-! ## Type environment: one `requestEnv` plus what `typeOfEntityUID` reads of the schema -/
+/-- `tagCapabilityKey`: the key of a string-literal tag operand, `""` otherwise -/
+def tagCapabilityKey : Expr → String
+  | .lit (.str s) => s
+  | _ => ""
+
+/-! ## Type environment: one `requestEnv` plus what the type checker reads of the schema -/
+
+/-- `resolved.Entity`: `Shape` (as converted by `schemaRecordToCedarType`), `Tags`, `ParentTypes` -/
+structure EntityDecl where
+  attrs : Attrs
+  tags : Option Ty
+  parents : List String
+deriving Repr, Inhabited
 
 structure TEnv where
   principalType : String
   action : UID
   resourceType : String
   context : Attrs
-  entityTypes : List String     -- declared entity types and enum types
+  entityTypes : List String     -- declared entity types and enum types (`isKnownEntityType`)
   actions : List UID            -- every action of the schema
   strict : Bool
+  entityDecls : List (String × EntityDecl) := []   -- `schema.Entities` (enum and action types have no entry)
+  actionParents : List (UID × List UID) := []      -- `schema.Actions[uid].Entity.Parents`
 deriving Repr, Inhabited
+
+/-- `v.schema.Entities[et]`: the zero `resolved.Entity` for a type without an entry (enum types, action types) -/
+def declOf (Γ : TEnv) (t : String) : EntityDecl :=
+  match Γ.entityDecls.lookup t with
+  | some d => d
+  | none => ⟨[], none, []⟩
+
+def entityParentsOf (Γ : TEnv) (t : String) : List String := (declOf Γ t).parents
+
+def actionParentsOf (Γ : TEnv) (u : UID) : List UID :=
+  match Γ.actionParents.lookup u with
+  | some ps => ps
+  | none => []
 
 /-- `isActionEntity` -/
 def isActionEntity (t : String) : Bool := t == "Action" || t.endsWith "::Action"
@@ -165,6 +206,117 @@ def typeOfVar (Γ : TEnv) : Var → Ty
   | .action => .entity [Γ.action.1]
   | .resource => .entity [Γ.resourceType]
   | .context => .record Γ.context
+
+def isEntityTy : Ty → Bool | .entity _ => true | _ => false
+
+/-- `isEntityOrSetOfEntity` -/
+def isEntityOrSetOfEntity : Ty → Bool
+  | .entity _ => true
+  | .set .never => true
+  | .set (.entity _) => true
+  | _ => false
+
+/-- `lookupEntityAttr`: the attribute must exist on EVERY element of the LUB; its type is the least upper bound of the
+    declared types (folded in the order of the elements), required iff required everywhere.  `none` = Go `nil` -/
+def lookupEntityAttrGo (dom strict : Bool) (Γ : TEnv) (a : String) : Option (Ty × Bool) → List String → Option (Ty × Bool)
+  | res, [] => res
+  | res, t :: ts =>
+    match lookupAttr a (declOf Γ t).attrs with
+    | none => none
+    | some (ty, req) =>
+      match res with
+      | none => lookupEntityAttrGo dom strict Γ a (some (ty, req)) ts
+      | some (rty, rreq) =>
+        match lub dom strict rty ty with
+        | none => none
+        | some u => lookupEntityAttrGo dom strict Γ a (some (u, rreq && req)) ts
+
+def lookupEntityAttr (dom strict : Bool) (Γ : TEnv) (tys : List String) (a : String) : Option (Ty × Bool) :=
+  lookupEntityAttrGo dom strict Γ a none tys
+
+/-- `hasResultTypeEntity` says `Bool` iff SOME element of the LUB declares the attribute (never `True`) -/
+def anyHasAttr (Γ : TEnv) (tys : List String) (a : String) : Bool := tys.any (fun t => hasKey a (declOf Γ t).attrs)
+
+/-- `entityHasTags`: EVERY element of the LUB declares tags -/
+def entityHasTags (Γ : TEnv) (tys : List String) : Bool := tys.all (fun t => (declOf Γ t).tags.isSome)
+
+/-- some, but not all, elements of the LUB declare tags (outside the proved domain, see `C15_hasTag_mixed_counterexample`) -/
+def mixedTags (Γ : TEnv) (tys : List String) : Bool :=
+  tys.any (fun t => (declOf Γ t).tags.isSome) && !entityHasTags Γ tys
+
+/-- `entityTagType`: LUB of the declared tag types, `Never` (and no error) as soon as an element has no tags; `none` = error -/
+def entityTagType (dom strict : Bool) (Γ : TEnv) : Ty → List String → Option Ty
+  | acc, [] => some acc
+  | acc, t :: ts =>
+    match (declOf Γ t).tags with
+    | none => some .never
+    | some tagTy =>
+      match lub dom strict acc tagTy with
+      | none => none
+      | some u => entityTagType dom strict Γ u ts
+
+/-- `isEntityDescendant`: depth-first search over `ParentTypes` with a visited set (`Schema.descVisFuel`, shared with
+    C16, where the search is proved total within this fuel); `none` = out of fuel -/
+def isEntityDescendant (Γ : TEnv) (child anc : String) : Option Bool :=
+  (Schema.descVisFuel (entityParentsOf Γ) (Γ.entityDecls.length + 1) child anc []).map (·.1)
+
+/-- inner loop of `anyEntityDescendantOf` -/
+def anyDescInner (Γ : TEnv) (lt : String) : List String → Option Bool
+  | [] => some false
+  | rt :: rs =>
+    if lt == rt then some true else
+    match isEntityDescendant Γ lt rt with
+    | none => none
+    | some true => some true
+    | some false => anyDescInner Γ lt rs
+
+/-- `anyEntityDescendantOf` -/
+def anyEntityDescendantOf (Γ : TEnv) : List String → List String → Option Bool
+  | [], _ => some false
+  | lt :: ls, rhs =>
+    match anyDescInner Γ lt rhs with
+    | none => none
+    | some true => some true
+    | some false => anyEntityDescendantOf Γ ls rhs
+
+/-- `isActionDescendant` (policy.go): plain recursive descent over the action parents, NO visited set
+    (`Schema.descFuel`); `none` = out of fuel (the Go code does not return: cyclic action hierarchies are rejected by
+    schema resolution) -/
+def isActionDescendant (Γ : TEnv) (a anc : UID) : Option Bool :=
+  Schema.descFuel (actionParentsOf Γ) (Γ.actionParents.length + 1) a anc
+
+/-- `isActionInSet`: `getActionsInSet(targets)` = the targets and every schema action below one of them -/
+def isActionInSet (Γ : TEnv) (a : UID) : List UID → Option Bool
+  | [] => some false
+  | t :: ts =>
+    if a == t then some true
+    else if !Γ.actions.contains a then isActionInSet Γ a ts
+    else match isActionDescendant Γ a t with
+      | none => none
+      | some true => some true
+      | some false => isActionInSet Γ a ts
+
+/-- `exprToActionEUID` -/
+def exprToActionEUID (Γ : TEnv) : Expr → Option UID
+  | .var .action => some Γ.action
+  | .lit (.entity t i) => if Γ.actions.contains (t, i) then some (t, i) else none
+  | _ => none
+
+/-- element of a set literal in `exprToActionEUIDs`: an action, or any other entity literal -/
+def setElemEUID (Γ : TEnv) (e : Expr) : Option UID :=
+  match exprToActionEUID Γ e with
+  | some u => some u
+  | none => match e with
+    | .lit (.entity t i) => some (t, i)
+    | _ => none
+
+/-- `exprToActionEUIDs`; `none` = Go `nil` (an EMPTY set literal yields the nil slice too) -/
+def exprToActionEUIDs (Γ : TEnv) (e : Expr) : Option (List UID) :=
+  match exprToActionEUID Γ e with
+  | some u => some [u]
+  | none => match e with
+    | .set es => if es.isEmpty then none else es.mapM (setElemEUID Γ)
+    | _ => none
 
 /-- `expectComparable` -/
 def isComparable : Ty → Bool
